@@ -355,6 +355,7 @@ def run(ctx):
     # process histories: name-colliding circuits first, then a sample of the cases that mention symbols or custom gates
     rng = random.Random(ctx.seed + 5)
     interesting = [c for c in cases if c["defs"] or any("theta" in json.dumps(o) or "x[3]" in json.dumps(o) for o in c["ops"])]
+    interesting.sort(key=lambda c: json.dumps([c["n"], c["ops"]], sort_keys=True))     # TLC's emission order varies
     rng.shuffle(interesting)
     per = 6
     hists = [{"k": "process-history", "cases": interesting[i : i + per]} for i in range(0, min(len(interesting), 96 if quick else 960), per)]
